@@ -2320,6 +2320,8 @@ class Executor:
             if f.name in self.exc_graph:
                 return ExcV(f.name, args, kwargs)
             raise Unsupported('construction of %s' % f.name)
+        if isinstance(f, Obj) and '__call__' in f.methods:
+            return f.methods['__call__'](self, f, *args, **kwargs)
         if callable(f):
             return f(self, *args, **kwargs)
         raise Unsupported('call of %s (%r)' % (key, f))
